@@ -125,4 +125,4 @@ def main(argv):
 
 
 def harnesses(tier, seed):
-    return fold(select(all_harnesses(), tier, seed, 10, budget=4500), 4)
+    return fold(select(all_harnesses(), tier, seed, 10), 4)
